@@ -90,7 +90,7 @@ SPEC = dict(
          "(observation: the bytes), of a fresh QXmppStunMessage().decode(bytes, key) (observation: fail | every field incl. the private "
          "attribute set; fields that can hold indeterminate memory are masked when an attribute overruns the packet), of "
          "QXmppUtils::generateHmacSha1 or generateCrc32; all compared with the Lean model. A sequence = one generated message: encode, "
-         "decode with the key, without key, with 3-5 other keys, and single-bit flips. Messages: corpus of the findings; every attribute "
+         "decode with the key, without key, with 3-5 other keys, and single-bit flips. Messages: corpus of the findings, repaired ones first (DATA announcing 1000 bytes with 4 present, 100-byte key, USERNAME abcd/secret, empty USERNAME); every attribute "
          "alone (7 address attributes x IPv4/IPv6; USERNAME/REALM/SOFTWARE/NONCE/DATA/ERROR phrase of every length 0..11; all numeric "
          "attributes; ICE roles; token) and all at once; 700 (quick) / 4000 (thorough) seeded random messages over all 23 attributes "
          "with strings up to 3000 bytes incl. 2/3/4-byte UTF-8; 300/1500 messages outside WFMsg (port without host, both ICE roles, "
@@ -109,7 +109,7 @@ SPEC = dict(
         "translators/crc_table.py (256 literals of crctable + shape of generateCrc32), translators/stun_consts.py (attribute enum, magic "
         "cookie, header/id size, family codes, fingerprint xor, adjusted lengths, order of emission in encode); both exit non-zero when an "
         "anchor is lost; lean/Qx/Generated/{CrcTable,StunConsts}.lean are rewritten from the working tree before every lake build",
-        "hand-written model lean/Qx/Model/C14Stun.lean (encode, decode loop, hmacCode, QDataStream read-past-end semantics), tied to "
+        "hand-written model lean/Qx/Model/C14Stun.lean (encode, decode loop with its bounds check, hmacCode, QDataStream read-past-end semantics), tied to "
         "src/base/QXmppStun.cpp and QXmppUtils.cpp by the correspondence run",
         "Qt behaviour taken as given and validated empirically only: QDataStream big-endian and read-past-end-yields-zero, "
         "QString::fromUtf8(QByteArray) (cut at NUL, BOM dropped, U+FFFD), QByteArray(negative size) is empty, QCryptographicHash SHA-1 "
@@ -124,12 +124,14 @@ SPEC = dict(
         "memory safety of decode on arbitrary bytes is sanitizer exploration (ASan+UBSan on library and harness), not a theorem (partial)",
     ],
     level_text="Theorems for every well-formed message over all 23 attributes, every key length and fingerprint on/off: decode(encode m) = "
-               "view m (strings through QString::fromUtf8, identity for NUL/BOM-free UTF-8); MI = the code's HMAC of the protected bytes "
-               "(= RFC 2104 for keys <= 64 bytes), FP = bitwise CRC-32 ^ 0x5354554e with the table regenerated from the source and "
-               "proved equal to the bitwise definition; for every packet: accepted with MI under a key => HMAC verified, accepted at FP "
-               "=> CRC verified. Five defects proved on the model and reproduced on the code: HMAC ignores key bytes beyond 64, hence "
-               "other keys accepted; attribute length beyond the buffer accepted (uninitialised bytes exposed); a flipped length bit "
-               "hides MI/FP and is accepted; NUL/BOM in strings do not round-trip.",
+               "view m (strings through QString::fromUtf8, identity for NUL/BOM-free UTF-8); MI = the code's HMAC of the protected bytes, "
+               "proved equal to RFC 2104 HMAC for keys of every length; FP = bitwise CRC-32 ^ 0x5354554e with the table regenerated from "
+               "the source and proved equal to the bitwise definition; for every packet: accepted with MI under a key => HMAC verified, "
+               "accepted at FP => CRC verified, accepted => every attribute header and value inside the packet. Two defects proved on the "
+               "model and reproduced on the code (recorded, not repaired): a flipped length bit that makes an attribute swallow exactly "
+               "MI(+FP) is accepted because decode does not require MI under a key; NUL/BOM in strings do not round-trip. Three earlier "
+               "defects (HMAC for keys > 64 bytes, other key accepted, attribute length beyond the buffer) are repaired in /repo "
+               "(a1928fd, df53ac0); their witnesses are replayed first on every run.",
     level_note="Proved about the hand-written model over translator-generated table/constants; model-to-code tie is differential "
                "(systematic + seeded random, not exhaustive). 'Never crashes / reads out of bounds on arbitrary bytes' is a runtime "
                "statement: decode is total in Lean, the C++ is run on 1.2e4 (quick) / 1e5 (thorough) arbitrary packets plus ~7e5 / 6e6 "
